@@ -6,6 +6,7 @@ import (
 	"errors"
 	"io"
 	"os"
+	"syscall"
 	"time"
 
 	rt "github.com/superfly/litefs/internal/verifrt"
@@ -103,7 +104,7 @@ func VerifC13PrimaryHalt() {
 		}
 		watch = true
 	}
-	switch rt.Choose("step", 5) {
+	switch rt.Choose("step", 6) {
 	case 0: // acquire with the same id again (a retried request)
 		if !held {
 			rt.Assume(false)
@@ -167,8 +168,53 @@ func VerifC13PrimaryHalt() {
 	case 4: // id 0 is refused
 		_, err := db.AcquireHaltLock(ctx, 0)
 		rt.Check(err != nil, "lock id 0 is refused")
+	case 5: // the recovery run while acquiring fails with an I/O error
+		if held {
+			rt.Assume(false)
+		}
+		fos := &verifFailOS{OS: db.os, ops: []string{"ROLLBACKJOURNAL", "CHECKPOINT:DB"}}
+		db.os = fos
+		hl, err := db.AcquireHaltLock(ctx, id)
+		rt.Check(fos.failed > 0 && err != nil && hl == nil, "an I/O error during the recovery fails the acquisition")
+		rt.Check(db.HaltLockID() == 0, "a failed acquisition leaves no halt lock advertised (a forwarded transaction would be applied without any lock held)")
+		rt.Check(verifAllUnlocked(db), "a failed acquisition frees every lock")
+		db.os = fos.OS
+		again, err := db.AcquireHaltLock(ctx, id)
+		rt.Check(err == nil && again != nil && db.TryAcquireWriteLock() == nil, "a retry after the failure really takes the write locks")
+		rt.Reach("c13.acquire.ioerror")
 	}
 	rt.Check(db.Pos() == pos0, "halt operations do not move the position")
+}
+
+// verifFailOS fails the named operations with an I/O error.
+type verifFailOS struct {
+	OS
+	ops    []string
+	failed int
+}
+
+func (o *verifFailOS) hit(op string) bool {
+	for _, x := range o.ops {
+		if x == op {
+			o.failed++
+			return true
+		}
+	}
+	return false
+}
+
+func (o *verifFailOS) OpenFile(op, name string, flag int, perm os.FileMode) (*os.File, error) {
+	if o.hit(op) {
+		return nil, &os.PathError{Op: "open", Path: name, Err: syscall.EIO}
+	}
+	return o.OS.OpenFile(op, name, flag, perm)
+}
+
+func (o *verifFailOS) Open(op, name string) (*os.File, error) {
+	if o.hit(op) {
+		return nil, &os.PathError{Op: "open", Path: name, Err: syscall.EIO}
+	}
+	return o.OS.Open(op, name)
 }
 
 // VerifC13RetryWhileWaiting: a retried acquire (same id) arrives while the first
